@@ -131,10 +131,83 @@ theorem diskOK_start (g : GoodChain c ch top) {d : Store} (hd : DiskOK c ch d) :
   obtain ⟨a, b⟩ := live_of_empty ch (n := n) h2.hc h2.dc h2.sH h2.sD
   exact ⟨n, ws, h1, h2.height, (hs.hs g).symm, hs, a, b⟩
 
+/-! ## a crash during start-up itself -/
+
+theorem diskOK_setHeight {d : Store} (hd : DiskOK c ch d) {h : Nat} (hh : h ≤ recHeight c d) :
+    DiskOK c ch (d.apply (.setHeight h)) := by
+  have hr : recHeight c (d.apply (.setHeight h)) = recHeight c d := by
+    unfold recHeight; rw [state_setHeight]
+  refine ⟨?_, ?_, ?_⟩
+  · rw [hr, height_setHeight]; have := hd.hle; split <;> omega
+  · intro s hs; rw [state_setHeight] at hs; rw [hr]; exact hd.state s hs
+  · intro k h1 h2; rw [hr] at h2; rw [getBlock_setHeight]; exact hd.blocks k h1 h2
+
+theorem diskOK_saveAbove {d : Store} (hd : DiskOK c ch d) {h : Nat} (hh : recHeight c d < h) (b : Block) :
+    DiskOK c ch (d.apply (.saveBlock h b)) := by
+  have hr : recHeight c (d.apply (.saveBlock h b)) = recHeight c d := rfl
+  refine ⟨by rw [hr]; exact hd.hle, fun s hs => by rw [hr]; exact hd.state s hs, ?_⟩
+  intro k h1 h2
+  rw [hr] at h2
+  rw [getBlock_saveBlock_other _ _ _ _ (by omega)]
+  exact hd.blocks k h1 h2
+
+theorem applyAll_take_setHeightW (d : Store) (h j : Nat) :
+    d.applyAll ((setHeightW d h).take j) = d ∨ d.applyAll ((setHeightW d h).take j) = d.apply (.setHeight h) := by
+  unfold setHeightW
+  split
+  · match j with
+    | 0 => left; rfl
+    | j + 1 => right; simp [Store.applyAll]
+  · left; simp [Store.applyAll]
+
+/-- **A crash during `Sync.start` itself** (between its own writes: local genesis block, raising the chain
+height) leaves a consistent image again. -/
+theorem start_crash_ok (g : GoodChain c ch top) {d : Store} (hd : DiskOK c ch d) (caches : FNode) :
+    ∃ n ws, start c d caches = some (n, ws) ∧ ∀ j, DiskOK c ch (d.applyPrefix j ws) := by
+  have hpos := g.ihPos
+  cases hst : d.state with
+  | none =>
+    have hr : recHeight c d = c.initialHeight - 1 := by simp [recHeight, hst]
+    have ok1 := diskOK_saveAbove hd (h := c.initialHeight) (by omega) (genesisBlock c)
+    generalize hd1 : d.apply (.saveBlock c.initialHeight (genesisBlock c)) = d1 at ok1
+    have hr1 : recHeight c d1 = c.initialHeight - 1 := by rw [← hd1]; exact hr
+    refine ⟨{ caches with store := d1.applyAll (setHeightW d1 (c.initialHeight - 1)), lastState := genesisState c, alive := true },
+            [.saveBlock c.initialHeight (genesisBlock c)] ++ setHeightW d1 (c.initialHeight - 1), ?_, ?_⟩
+    · unfold start
+      simp only [hst, hd1]
+      rfl
+    · intro j
+      match j with
+      | 0 => simpa [Store.applyPrefix, Store.applyAll] using hd
+      | j + 1 =>
+        have e : d.applyPrefix (j + 1) ([.saveBlock c.initialHeight (genesisBlock c)] ++ setHeightW d1 (c.initialHeight - 1))
+            = d1.applyAll ((setHeightW d1 (c.initialHeight - 1)).take j) := by
+          simp [Store.applyPrefix, Store.applyAll, hd1]
+        rw [e]
+        rcases applyAll_take_setHeightW d1 (c.initialHeight - 1) j with h | h
+        · rw [h]; exact ok1
+        · rw [h]; exact diskOK_setHeight ok1 (by omega)
+  | some s =>
+    have hr : recHeight c d = s.lastHeight := by simp [recHeight, hst]
+    obtain ⟨_, hs2⟩ := hd.state s hst
+    refine ⟨{ caches with store := d.applyAll (setHeightW d s.lastHeight), lastState := s, alive := true },
+            [] ++ setHeightW d s.lastHeight, ?_, ?_⟩
+    · unfold start
+      simp only [hst]
+      rw [if_neg (by omega)]
+    · intro j
+      simp only [List.nil_append, Store.applyPrefix]
+      rcases applyAll_take_setHeightW d s.lastHeight j with h | h
+      · rw [h]; exact hd
+      · rw [h]; exact diskOK_setHeight hd (by omega)
+
+
 /-! ## any number of crashes and restarts -/
 
-/-- nodes reachable from a fresh start by genuine events, clean restarts, and crashes at any write boundary of
-any step other than the excluded one, each followed by a restart on the image with empty caches -/
+/-- nodes reachable from a fresh start by genuine events, clean restarts, crashes at any write boundary of
+any step other than the excluded one, each followed by a restart on the image with empty caches, and (`image`)
+a start on any consistent image — in particular on the image left by a crash *during* an earlier start
+(`start_crash_ok`) -/
 inductive Reach (c : Cfg) (ch : PChain) : FNode → Prop
   | fresh : Reach c ch (fresh c)
   | ev {n : FNode} (e : Ev) : Reach c ch n → Reach c ch (deliver ch n e).1
@@ -142,6 +215,7 @@ inductive Reach (c : Cfg) (ch : PChain) : FNode → Prop
   | crash {n n' : FNode} {ws : List SW} (e : Ev) (k : Nat) : Reach c ch n →
       afterStateWrite (deliver ch n e).2 k = false →
       start c (n.store.applyPrefix k (deliver ch n e).2) = some (n', ws) → Reach c ch n'
+  | image {n : FNode} {d : Store} {ws : List SW} : DiskOK c ch d → start c d = some (n, ws) → Reach c ch n
 
 theorem Inv.rebase (hi : Inv c ch h0 evs n) : Inv c ch n.store.height evs n :=
   ⟨{ hi.safe with ge := Nat.le_refl _, sound := fun k a b => by omega }, hi.live, hi.quiet⟩
@@ -171,6 +245,10 @@ theorem reach_safe (g : GoodChain c ch top) {n : FNode} (r : Reach c ch n) : ∃
     obtain ⟨n', ws, a1, _, _, _, a4⟩ := crash_restarts g hs e k hk
     rw [a1] at hst; cases hst
     exact ⟨[], a4.safe⟩
+  | image hd hst =>
+    obtain ⟨n', ws', a1, _, _, a4⟩ := diskOK_start g hd
+    rw [a1] at hst; cases hst
+    exact ⟨[], a4.safe⟩
 
 theorem reach_inv (g : GoodChain c ch top) (dc : DistinctCommitments ch) {n : FNode} (r : Reach c ch n) :
     ∃ evs, Inv c ch n.store.height evs n := by
@@ -181,6 +259,10 @@ theorem reach_inv (g : GoodChain c ch top) (dc : DistinctCommitments ch) {n : FN
   | crash e k _ hk hst ih =>
     obtain ⟨evs, hi⟩ := ih
     obtain ⟨n', ws, a1, _, _, _, a4⟩ := crash_restarts g hi.safe e k hk
+    rw [a1] at hst; cases hst
+    exact ⟨[], a4⟩
+  | image hd hst =>
+    obtain ⟨n', ws', a1, _, _, a4⟩ := diskOK_start g hd
     rw [a1] at hst; cases hst
     exact ⟨[], a4⟩
 
